@@ -10,6 +10,8 @@ CONSTANTS
  DevNoExpiry = FALSE
  DevLogoutKeeps = FALSE
  DevLimiterPerWindowStart = FALSE
+ DevAnyCookieValid = FALSE
+ PairJars = TRUE
 INIT Init
 NEXT Next
 INVARIANTS EmitSched C38_SessionRequired C38_RateLimit
